@@ -186,8 +186,18 @@ package upstream
 //@   callsite open#1 () require ul.connection == nil && ul.session == nil                                       :reconnects_from_a_clean_state
 //@   callsite open#1 () require old(ul.connection) == nil || G_snap_closed()                                    :a_live_connection_is_reused
 //@   callsite openStream#1 () require ul.session != nil                                                         :streams_only_over_a_session
+//@   ensures err == nil ==> result != nil && spec_fresh(result)                                                 :a_new_stream_per_logical_connection
+//@   ensures err != nil ==> result == nil
 
 //@ func (ups *Packet) Connect
 //@   implements (github.com/bokysan/socketace/v2/internal/client/upstream.Upstream).Connect
 //@   property C04, C16
 //@   safe
+
+// C14: a stream on which protocol selection failed is closed, not leaked
+//@ func (ul *Upstreams) openStream
+//@   property C14, C16
+//@   requires ul.session != nil
+//@   callsite LogClose#1 (arg0 io.Closer, stream *streams.NamedStream) require spec_sameref(arg0, stream)                 :failed_stream_is_closed
+//@   ensures err != nil ==> result == nil                                                                                 :no_stream_on_error
+//@   ensures err == nil ==> result != nil && spec_fresh(result)                                                           :a_new_stream_per_logical_connection
